@@ -3,5 +3,5 @@ CONSTANTS
   MaxLen = 4
 INIT Init
 NEXT Next
-INVARIANTS InvQuoteReadsBack InvQuoteInsideWord InvEscapeReadsBack InvFishReadsBack InvTmuxReadsBack InvOneWordPerItem InvSameScheme EmitQuote
+INVARIANTS InvQuoteReadsBack InvQuoteInsideWord InvEscapeReadsBack InvFishReadsBack InvExecutorReadsBack InvTmuxReadsBack InvOneWordPerItem InvSameScheme EmitQuote
 CHECK_DEADLOCK FALSE
